@@ -46,13 +46,21 @@ type Ramp struct {
 	// log bodies of every type (seeded change C04e: a column type that is never
 	// re-evaluated keeps its 8-bit index for ever)
 	AllCols bool
+	// Aligned: several dictionary columns of ONE record reach the 8-bit limit
+	// in the same batch with different reuse ratios - a first batch of about
+	// 250 ids, each used four times, then batches of fresh ids used once; the
+	// wide key "k<id mod KeyMod>" wraps just above 255 (seeded change C12g: a
+	// reset of one column and an overflow of another in the same rebuild)
+	Aligned bool
+	KeyMod  int
+	batches int
 }
 
 // NewBoundaryRamp builds batches with exactly (or just below) 65,535
 // attribute-bearing parents: the largest batch inside the domain of the
 // round-trip properties.
 func NewBoundaryRamp(t *rapid.T) *Ramp {
-	r := &Ramp{T: t, Reuse: 1, Containers: 1, Boundary: true, Fan: 1}
+	r := &Ramp{T: t, Reuse: 1, Containers: 1, Boundary: true, Fan: 1, KeyMod: 300}
 	r.Sizes = []int{65535, 65535, 65534, 40000, 32768}
 	r.Fresh = []int{100, 100, 10}
 	r.Wide = rapid.IntRange(0, 3).Draw(t, "wide") == 0
@@ -64,7 +72,7 @@ func NewBoundaryRamp(t *rapid.T) *Ramp {
 // item in one attribute table, batches of 9,000-17,000 items, interspersed
 // with small and attribute-less batches.
 func NewFanRamp(t *rapid.T) *Ramp {
-	r := &Ramp{T: t, Reuse: 1, Containers: 1}
+	r := &Ramp{T: t, Reuse: 1, Containers: 1, KeyMod: 300}
 	r.Fan = rapid.SampledFrom([]int{4, 8}).Draw(t, "fan")
 	r.Sizes = []int{17000, 9000, 300, 3, 17000}
 	r.Fresh = []int{100, 100, 50}
@@ -106,6 +114,15 @@ func NewRamp(t *rapid.T, big bool) *Ramp {
 	if big {
 		r.Containers = 1
 	}
+	r.KeyMod = 300
+	if !big && r.pct("aligned", 15) {
+		r.Aligned = true
+		r.Wide = true
+		r.Fan = 1
+		r.KeyMod = rapid.SampledFrom([]int{260, 257, 300, 256}).Draw(t, "keymod")
+		r.Sizes = []int{300, 130, 40, 10, 300}
+		r.Fresh = []int{100}
+	}
 	return r
 }
 
@@ -126,6 +143,13 @@ func (r *Ramp) ids() []int {
 	r.plain = r.PlainPct > 0 && r.pct("plain", r.PlainPct)
 	n := rapid.SampledFrom(r.Sizes).Draw(r.T, "rampn")
 	fresh := rapid.SampledFrom(r.Fresh).Draw(r.T, "freshpct")
+	if r.Aligned {
+		r.Reuse = 1
+		if r.batches == 0 {
+			n, r.Reuse = rapid.SampledFrom([]int{250, 254, 240, 255}).Draw(r.T, "alignedfirst"), 4
+		}
+	}
+	r.batches++
 	if r.Big && r.Next == 0 && r.pct("smallfirst", 35) {
 		// open the sub-streams with a small batch; the crossing then happens on
 		// streams that exist already, from 8-bit indexes when the batch stays
@@ -204,7 +228,7 @@ func (r *Ramp) attrs(m pcommon.Map, id int) {
 		m.PutStr("k"+strconv.Itoa(f), "v"+strconv.Itoa(f)+"_"+s)
 	}
 	if r.Wide {
-		m.PutStr("k"+strconv.Itoa(id%300), "w")
+		m.PutStr("k"+strconv.Itoa(id%r.KeyMod), "w")
 		m.PutDouble("d", float64(id)+0.5)
 		m.PutEmptyBytes("y").FromRaw([]byte(s))
 		m.PutEmptySlice("l").AppendEmpty().SetStr(s)
